@@ -30,6 +30,11 @@ pub struct CancelCase {
     pub suffix: Vec<Op>,
     pub final_lazy: bool,
     pub final_remove_idx: bool,
+    /// units of tokio's cooperative budget left to the poll after which the future is dropped: after that many of the
+    /// runtime's own resources (locks, channels, join handles) have been used in that poll, the next one answers Pending
+    /// although it is free - a suspension point no scheduling produces on demand. None = the budget is left alone
+    #[serde(default)]
+    pub budget: Option<u8>,
 }
 
 pub const CREATE_PARTIAL: &str = "cancel/create-leaves-partial-blob";
@@ -59,8 +64,9 @@ pub fn cancel_strategy() -> BoxedStrategy<CancelCase> {
         c
     });
     let k = prop_oneof![3 => 0u16..2, 4 => 1u16..4, 2 => 3u16..7, 1 => 6u16..14];
+    let k = (k, prop_oneof![3 => Just(None), 2 => (0u8..24).prop_map(Some)]);
     (cfg, prop::collection::vec(op_strategy(&pre), 0..pre.max_ops), victim, k, prop::collection::vec(op_strategy(&suf), 0..suf.max_ops), prop::bool::weighted(0.3), any::<bool>())
-        .prop_map(|(cfg, prefix, victim, k, suffix, final_lazy, final_remove_idx)| CancelCase { cfg, prefix, victim, k, suffix, final_lazy, final_remove_idx })
+        .prop_map(|(cfg, prefix, victim, (k, budget), suffix, final_lazy, final_remove_idx)| CancelCase { cfg, prefix, victim, k, suffix, final_lazy, final_remove_idx, budget })
         .boxed()
 }
 
@@ -74,9 +80,24 @@ impl Wake for Flag {
 
 /// Polls `fut`; re-polls only after its waker fired; drops it after `k` resumptions. Returns (output if completed, resumptions used)
 async fn poll_k<F: Future>(fut: F, k: usize) -> (Option<F::Output>, usize) {
+    poll_kb(fut, k, None).await
+}
+
+/// As `poll_k`; the last poll (the one after which the future is dropped) runs with `budget` units of the cooperative
+/// budget: the harness yields (the runtime then polls it with a fresh budget of 128), uses up the rest with
+/// `consume_budget`, and polls the victim without any await in between
+async fn poll_kb<F: Future>(fut: F, k: usize, budget: Option<u8>) -> (Option<F::Output>, usize) {
     let mut fut: Pin<Box<F>> = Box::pin(fut);
     let mut used = 0usize;
     loop {
+        if let (true, Some(j)) = (used == k, budget) {
+            tokio::task::yield_now().await;
+            let mut left = 128usize;
+            while left > j as usize && tokio::task::coop::has_budget_remaining() {
+                tokio::task::coop::consume_budget().await;
+                left -= 1;
+            }
+        }
         let outer = futures::future::poll_fn(|cx| Poll::Ready(cx.waker().clone())).await;
         let flag = Arc::new(Flag(AtomicBool::new(false), outer));
         let w = Waker::from(flag.clone());
@@ -137,37 +158,37 @@ pub fn run_cancel(c: &CancelCase, dir: &Path, findings: &Findings) -> Result<Cas
                 let mm = meta_pool(*meta);
                 let val = value_bytes(vi, resolve_vlen(*vlen, keylen, &mm), *fill);
                 let kb = key_bytes(keylen, *key);
-                let (r, u) = poll_k(s.write(&kb, Bytes::from(val), *ts, mm.as_ref().map(to_meta)), k).await;
+                let (r, u) = poll_kb(s.write(&kb, Bytes::from(val), *ts, mm.as_ref().map(to_meta)), k, c.budget).await;
                 (r.map(|x| x.is_ok()), u)
             }
             Op::Delete { key, ts, meta, only_if } => {
                 let mm = meta_pool(*meta);
                 let kb = key_bytes(keylen, *key);
-                let (r, u) = poll_k(s.delete(&kb, *ts, mm.as_ref().map(to_meta), *only_if), k).await;
+                let (r, u) = poll_kb(s.delete(&kb, *ts, mm.as_ref().map(to_meta), *only_if), k, c.budget).await;
                 (r.map(|x| x.is_ok()), u)
             }
             Op::CloseActive => {
-                let (r, u) = poll_k(s.try_close_active(), k).await;
+                let (r, u) = poll_kb(s.try_close_active(), k, c.budget).await;
                 (r.map(|x| x.is_ok()), u)
             }
             Op::CreateActive => {
-                let (r, u) = poll_k(s.try_create_active(), k).await;
+                let (r, u) = poll_kb(s.try_create_active(), k, c.budget).await;
                 (r.map(|x| x.is_ok()), u)
             }
             Op::Restore => {
-                let (r, u) = poll_k(s.try_restore_active(), k).await;
+                let (r, u) = poll_kb(s.try_restore_active(), k, c.budget).await;
                 (r.map(|x| x.is_ok()), u)
             }
             Op::Free => {
-                let (r, u) = poll_k(s.free_excess_resources(), k).await;
+                let (r, u) = poll_kb(s.free_excess_resources(), k, c.budget).await;
                 (r.map(|_| true), u)
             }
             Op::ForceUpdate(p) => {
-                let (r, u) = poll_k(s.force_update(*p), k).await;
+                let (r, u) = poll_kb(s.force_update(*p), k, c.budget).await;
                 (r.map(|_| true), u)
             }
             _ => {
-                let (r, u) = poll_k(s.fsyncdata(), k).await;
+                let (r, u) = poll_kb(s.fsyncdata(), k, c.budget).await;
                 (r.map(|x| x.is_ok()), u)
             }
         };
@@ -382,12 +403,24 @@ pub fn run_cancel(c: &CancelCase, dir: &Path, findings: &Findings) -> Result<Cas
 }
 
 fn sample(c: &CancelCase) -> Value {
-    json!({"cfg": format!("keylen={} rt_workers={} defer_ms={:?}", c.cfg.keylen, c.cfg.rt_workers, c.cfg.defer_ms), "prefix": render_ops(&c.prefix), "victim": render_ops(std::slice::from_ref(&c.victim)), "drop_after_resumptions": c.k, "suffix": render_ops(&c.suffix), "final_reopen": format!("lazy={} remove_indexes={}", c.final_lazy, c.final_remove_idx)})
+    json!({"cfg": format!("keylen={} rt_workers={} defer_ms={:?}", c.cfg.keylen, c.cfg.rt_workers, c.cfg.defer_ms), "prefix": render_ops(&c.prefix), "victim": render_ops(std::slice::from_ref(&c.victim)), "drop_after_resumptions": c.k, "budget_units_in_last_poll": c.budget, "suffix": render_ops(&c.suffix), "final_reopen": format!("lazy={} remove_indexes={}", c.final_lazy, c.final_remove_idx)})
 }
 
 /// Fault enumeration over suspension points: every victim kind x every k, both runtime flavours,
 /// fresh and reopened active blob
 fn enumerated(thorough: bool) -> Vec<CancelCase> {
+    enum_cases(if thorough { 16 } else { 8 }, thorough, &[None])
+}
+
+/// The same grid with the cooperative budget of the last poll cut to j units: the (j+1)-th runtime resource that poll
+/// touches (lock, channel, join handle) answers Pending, so the future is dropped at suspension points which never pend
+/// by themselves (e.g. an uncontended lock taken after a blob has been moved out of its slot)
+fn enumerated_budget(thorough: bool) -> Vec<CancelCase> {
+    let js: Vec<Option<u8>> = (0..if thorough { 40u8 } else { 20 }).map(Some).collect();
+    enum_cases(if thorough { 6 } else { 3 }, true, &js)
+}
+
+fn enum_cases(kmax: usize, thorough: bool, budgets: &[Option<u8>]) -> Vec<CancelCase> {
     let mut out = vec![];
     let victims = vec![
         Op::Write { key: 1, ts: 4, meta: 0, vlen: 60, fill: 0 },
@@ -402,11 +435,11 @@ fn enumerated(thorough: bool) -> Vec<CancelCase> {
         Op::Free,
         Op::ForceUpdate(crate::sut::Pred::Always),
     ];
-    let kmax = if thorough { 16 } else { 8 };
     for (vi, victim) in victims.iter().enumerate() {
         for rt_workers in [0usize, 2] {
             for reopened in [false, true] {
                 for k in 0..kmax {
+                  for budget in budgets {
                     if !thorough && rt_workers == 2 && k > 4 {
                         continue;
                     }
@@ -431,7 +464,8 @@ fn enumerated(thorough: bool) -> Vec<CancelCase> {
                         _ => {}
                     }
                     let suffix = vec![Op::Write { key: 2, ts: 1, meta: 0, vlen: 35, fill: 0 }, Op::Delete { key: 1, ts: 2, meta: 0, only_if: true }, Op::Write { key: 0, ts: 4, meta: 0, vlen: 36, fill: 0 }];
-                    out.push(CancelCase { cfg: Cfg { keylen: 8, rt_workers, allow_dup: true, defer_ms: if matches!(victim, Op::Free) { (60_000, 180_000) } else { (2, 5) }, ..Cfg::default() }, prefix, victim: victim.clone(), k: k as u16, suffix, final_lazy: false, final_remove_idx: (k + vi) % 2 == 0 });
+                    out.push(CancelCase { cfg: Cfg { keylen: 8, rt_workers, allow_dup: true, defer_ms: if matches!(victim, Op::Free) { (60_000, 180_000) } else { (2, 5) }, ..Cfg::default() }, prefix, victim: victim.clone(), k: k as u16, suffix, final_lazy: false, final_remove_idx: (k + vi) % 2 == 0, budget: *budget });
+                  }
                 }
             }
         }
@@ -724,6 +758,8 @@ pub fn run(ctx: &RunCtx) -> PropResult {
     run_generated(ctx, "cancel", ctx.tier.pick(4000, 50_000), cancel_strategy, runf, &sample, &mut report);
     let runf = |c: &CancelCase, d: &Path| run_cancel(c, d, &findings);
     run_enumerated(ctx, "cancel-k", enumerated(ctx.tier == Tier::Thorough), runf, &sample, &mut report);
+    let runf = |c: &CancelCase, d: &Path| run_cancel(c, d, &findings);
+    run_enumerated(ctx, "cancel-budget", enumerated_budget(ctx.tier == Tier::Thorough), runf, &sample, &mut report);
     let runf = |c: &InitCase, d: &Path| run_init(c, d, &findings);
     run_replays::<InitCase, _>(ctx, "cancel-init", &ctx.verif_dir.join("replays").join("C14"), runf, &mut report);
     let runf = |c: &InitCase, d: &Path| run_init(c, d, &findings);
